@@ -150,6 +150,9 @@ func main() {
 		fmt.Fprintln(os.Stderr, "chainmc: known_findings.json:", err)
 		os.Exit(2)
 	}
+	if *tier == "thorough" {
+		c07MaxCuts = 400
+	}
 	start := time.Now()
 	deadline := start.Add(*budget)
 	chk := ps.Checker()
